@@ -1,5 +1,6 @@
 import PC.Model.Env
 import PC.Tie.Env
+import PC.Proofs.EnvSegments
 /-! C17 — environment: expansion / escaping at load, precedence and injected variables at launch. -/
 namespace PC.Props.C17
 open PC.Go PC.Env
@@ -89,5 +90,36 @@ example : expand (fun n => if n = "HOME".toList then "/root".toList else []) "a$
     = "a/root/x /root! $ ".toList := by decide
 example : loadText (fun n => if n = "V".toList then "1".toList else []) "x=$V y=$$V z=${V}".toList
     = "x=1 y=$V z=1".toList := by decide
+
+/-! ### configuration text built from segments -/
+
+/-- **Load-time expansion, for every text built from literal pieces, `$NAME`, `${NAME}` and `$$`**:
+    the three rewrites of `loadProjectFromFile` (regenerated from the source,
+    `PC.Tie.Env.loadText_eq`) replace every `$NAME` and `${NAME}` by the value of `NAME` in the
+    process-compose environment, every `$$` by a literal `$`, and leave the literal text (free of
+    `$` and `#`) as it is — for every well-formed list of segments (names made of identifier
+    characters, a bare `$NAME` not starting with a digit and not directly followed by literal text
+    that would prolong it) and every environment whose values are free of `#`. -/
+theorem expand_segments (m : List Char → List Char) (hm : PC.Env.CleanEnv m) (segs : List PC.Env.Seg)
+    (hw : PC.Env.WFL segs) : PC.Env.loadText m (PC.Env.render m 0 segs) = PC.Env.eval m segs :=
+  PC.Env.loadText_segments m hm segs hw
+
+/-- the hypotheses are met by a non-trivial text: `run ${A}-$$HOME $B1.$A` under A = "x y", B1 = "" -/
+example :
+    let m : List Char → List Char := fun x => if x = "A".toList then "x y".toList else []
+    let segs : List PC.Env.Seg := [.lit "run ".toList, .braced "A".toList, .lit "-".toList, .dollar, .lit "HOME ".toList,
+      .var "B1".toList, .lit ".".toList, .var "A".toList]
+    PC.Env.render m 0 segs = "run ${A}-$$HOME $B1.$A".toList ∧
+    PC.Env.loadText m (PC.Env.render m 0 segs) = "run x y-$HOME .x y".toList ∧ PC.Env.eval m segs = "run x y-$HOME .x y".toList := by
+  decide
+
+/-- … and they are well-formed (decided by the executable form of the conditions) -/
+example : PC.Env.WFL [.lit "run ".toList, .braced "A".toList, .lit "-".toList, .dollar, .lit "HOME ".toList,
+    .var "B1".toList, .lit ".".toList, .var "A".toList] :=
+  PC.Env.wflB_sound _ (by decide)
+
+/-- a bare `$NAME` directly followed by an identifier character is outside the theorem, and rightly:
+    the name is then a different one -/
+example : PC.Env.wflB [.var "A".toList, .lit "b".toList] = false := by decide
 
 end PC.Props.C17
